@@ -21,9 +21,11 @@ NOMSG = {"t": "", "src": 0, "dst": 0, "bn": 0, "bi": 0, "an": 0, "ai": 0, "v": 0
 MF = ("t", "src", "dst", "bn", "bi", "an", "ai", "v")
 
 
+ODD = 999998
+
+
 def marr(m):
     return [m[f] for f in MF]
-ODD = 999998
 
 
 def name_of(i):
@@ -237,7 +239,7 @@ def bag_of(v):
 
 def msg_from_key(k):
     d = dict(k) if not isinstance(k, dict) else k
-    return {f: (d[f] if not hasattr(d[f], "real") or isinstance(d[f], bool) else int(d[f])) for f in NOMSG}
+    return {f: d[f] for f in NOMSG}
 
 
 def choices_from_states(states):
